@@ -135,6 +135,10 @@ func buildWorkers(race, native bool) *built {
 }
 
 func (b *built) cleanup() {
+	if b != nil && b.scratch != "" && os.Getenv("VERIF_KEEP_BUILD") != "" {
+		fmt.Fprintln(os.Stderr, "verif: build kept in", b.scratch) // development aid
+		return
+	}
 	if b != nil && b.scratch != "" {
 		os.RemoveAll(b.scratch)
 	}
